@@ -6,7 +6,7 @@ HEADER = """From QV Require Import Common.Prelude Codec.Varint Codec.Model Hash.
 Open Scope N_scope."""
 
 TB = [
-    "Print Assumptions: C13_injective, C13_prefix_free, C13_no_proper_prefix, C13_history_free, C13_fingerprint_deterministic, C13_roundtrip_stable, C13_fingerprint_discriminates closed under the global context (no axioms)",
+    "Print Assumptions: C13_injective, C13_prefix_free, C13_no_proper_prefix, C13_history_free, C13_fingerprint_deterministic, C13_roundtrip_stable, C13_fingerprint_discriminates, C13_domain_check_sound closed under the global context (no axioms)",
     "H-hash (explicit hypothesis of C13_fingerprint_discriminates, never an axiom): stream |-> SipHash128(seed ++ resolve stream) is injective up to feq on the streams in play; it covers the collision resistance of SipHash-128 AND the step from the multiset of per-entry sub-hashes of an unordered collection to their wrapping 128-bit sum (an additive combination; weaker than hashing the sorted sub-hashes against a deliberate attacker). Satisfiable: Hash/Examples.v toy_hhash. C13_fingerprint_deterministic / C13_history_free need no hypothesis on the hash function",
     "model = Hash/Model.v (stream: which StableHasher method is called with which argument; flat: the bytes the trait's default methods write; resolve/fingerprint: Sip128Hasher::sub_hash = copy of the state, Engine::hash = seed then value), written by hand; tied to crates/stable_hash (+derive) by the exact comparison of both levels with two instrumented implementations of the public StableHasher trait on this run's cases (harness/src/bin/stablehash.rs, Hash/Check.v)",
     "H-rustc: size and value of mem::discriminant (8 bytes, variant index, for Option/Result/derived enums without repr; repr width otherwise), usize = 8 bytes; checked on this run's compiler by the correspondence (fact discriminant_width), not proved",
@@ -104,7 +104,7 @@ def run(ctx):
         "traces_validated_against_impl": total,
         "evaluations": total + st["history_checked"] + st["ptr_checked"] + st["rt_checked"] + st["near_miss_checked"] + 2 * len(p1),
         "distinct_nontrivial": st["distinct_values"],
-        "rule": "one case = one generated value of one of the concrete Rust types: its recorded StableHasher calls and recorded bytes (two instrumented hashers) are compared exactly with stream / flat(stream) in Coq; on the real Sip128Hasher the same value is re-hashed after 2 rebuilds with another construction history, behind &/Box/Rc/Arc, after decode(encode) and in 2 separate processes, and all unequal values of one type must hash differently. distinct_nontrivial = number of distinct values (by canonical value term, per type) counted by the harness",
+        "rule": "one case = one generated value of one of the concrete Rust types: its recorded StableHasher calls and recorded bytes (two instrumented hashers) are compared exactly with stream / flat(stream) in Coq, and the value term passes wtb (is in the theorems' domain); on the real Sip128Hasher the same value is re-hashed after 2 rebuilds with another construction history, behind &/Box/Rc/Arc, after decode(encode) and in 2 separate processes, and all unequal values of one type must hash differently. distinct_nontrivial = number of distinct values (by canonical value term, per type) counted by the harness",
         "samples": st["samples"],
         "input_distribution": dist,
         "disagreements_checked": len(disagreements),
